@@ -49,8 +49,10 @@ pub fn gen_pair(rng: &mut Rng) -> Pair {
         _ => rng.range_i128(lo, hi) - i,
     };
     let j = (i + delta).clamp(lo, hi);
-    let o1 = gen_offset(rng);
-    let o2 = if rng.chance(1, 4) { o1 } else { gen_offset(rng) };
+    let o1 = gen_offset_any(rng);
+    let o2 = if rng.chance(1, 4) { o1 } else { gen_offset_any(rng) };
+    let wild = o1.unsigned_abs() > 86_399 || o2.unsigned_abs() > 86_399;
+    let (i, j) = if wild { (i.clamp(MIN_INSTANT + 30_000 * D, MAX_INSTANT - 30_000 * D), j.clamp(MIN_INSTANT + 30_000 * D, MAX_INSTANT - 30_000 * D)) } else { (i, j) };
     let class = if i == j {
         "pair/equal-instant"
     } else if (i < 0) != (j < 0) {
